@@ -93,7 +93,23 @@ def main():
                     continue
                 if e.get("Test") and e.get("Action") == "pass":
                     got.add(e["Package"].split("seaweedfs/")[-1] + "::" + e["Test"])
-            out["baseline_missing"] = sorted(want - got)
+            missing = want - got
+            # weed/storage's TestFastLoadingNeedleMapMetrics panics ~20% of the time on the unchanged
+            # tree (rand.Int63n(0)) and takes the rest of the package with it: re-run that package
+            for _ in range(4):
+                if not any(t.startswith("weed/storage::") for t in missing):
+                    break
+                rc2, o2 = sh("go test -json -vet=off -count=1 ./weed/storage/ 2>/dev/null", wt, timeout=1800)
+                for l in o2.splitlines():
+                    try:
+                        e = json.loads(l)
+                    except Exception:
+                        continue
+                    if e.get("Test") and e.get("Action") == "pass":
+                        got.add(e["Package"].split("seaweedfs/")[-1] + "::" + e["Test"])
+                missing = want - got
+                out["storage_pkg_rerun"] = out.get("storage_pkg_rerun", 0) + 1
+            out["baseline_missing"] = sorted(missing)
             if out["baseline_missing"]:
                 out["status"] = "suite-changed"
                 print(json.dumps(out)); return 1
